@@ -4,7 +4,11 @@ package main
 //
 // Implementation side: iterator.NewSession(nil,cfg).NewIterator(recorder).Iterate(v) on random
 // values of random types (reflect.StructOf, nested containers) and on a zoo of hand-written
-// values, with and without record types and recursion support.
+// values, with and without record types and recursion support.  Two families are swept systematically because
+// ordinary values do not reach them: structs embedded 0-6 levels deep (extractFields builds one index path per level;
+// a path shared between siblings shows only from the third level on) and objects of different types at one address
+// (a struct and its first field, an array or slice and its first element: the reference table of the recursion
+// support is about (type, address)).
 // Search oracle: (1) rules.NewRules accepts the recorded stream, (2) a type-directed reader walks
 // value and events side by side: every element / entry / kept field once with the same contents,
 // typed arrays element-exact, bool arrays bit-exact, (3) the CBE and CTE documents of the
@@ -35,6 +39,7 @@ import (
 	"github.com/kstenerud/go-concise-encoding/configuration"
 	"github.com/kstenerud/go-concise-encoding/iterator"
 	"github.com/kstenerud/go-concise-encoding/types"
+	duplicates "github.com/kstenerud/go-duplicates"
 )
 
 func init() { register("C05", runC05, replayC05) }
@@ -230,17 +235,23 @@ func (f c05Field) extractable() bool {
 	return f.Exported && f.Omit != configuration.OmitFieldAlways
 }
 
-// the fields a struct type contributes: exported, not `omit`, embedded structs flattened, stable by order
-func c05Extract(t reflect.Type, path []int) []c05Field {
+// the fields a struct type contributes: exported, not `omit`, embedded structs flattened, stable by order.
+// promote = false: as the implementation reads "exported" for an embedded struct, by the name of the embedded TYPE;
+// promote = true: as Go does, the exported fields of an embedded struct are fields of the outer struct whatever the
+// embedded type is called (struct{ inner; Z int } with type inner struct{ P int } has the fields P and Z).
+func c05Extract(t reflect.Type, path []int, promote bool) []c05Field {
 	var out []c05Field
 	for i := 0; i < t.NumField(); i++ {
 		p := append(append([]int{}, path...), i)
 		fd := c05ParseField(t.Field(i), p)
 		if !fd.extractable() {
+			if promote && !fd.Exported && fd.Anon && fd.Type.Kind() == reflect.Struct && fd.Omit != configuration.OmitFieldAlways {
+				out = append(out, c05Extract(fd.Type, p, promote)...)
+			}
 			continue
 		}
 		if fd.Anon {
-			out = append(out, c05Extract(fd.Type, p)...)
+			out = append(out, c05Extract(fd.Type, p, promote)...)
 		} else {
 			out = append(out, fd)
 		}
@@ -390,14 +401,15 @@ type c05Walker struct {
 	problems []c05Problem
 	desync   bool
 	feats    map[string]int
-	strict   bool // integer events must have the kind the iterator uses today (only to tell map keys apart)
-	markOpen int  // markers whose object is still being walked
-	markNow  bool // refOrMarker has just consumed a marker
+	strict   bool         // integer events must have the kind the iterator uses today (only to tell map keys apart)
+	markOpen int          // markers whose object is still being walked
+	markNow  bool         // refOrMarker has just consumed a marker
+	dupAt    map[int]bool // positions of field-name events that repeat a name already used in the same map / record type
 }
 
 func newC05Walker(evs []Ev, kc *c05Cfg) *c05Walker {
 	return &c05Walker{evs: evs, kc: kc, edgeEnd: c05EdgeEmitsEnd(), marked: map[string]reflect.Value{},
-		addrs: map[c05TP]int{}, sids: map[reflect.Type]int{}, anc: map[c05TP]int{}, feats: map[string]int{}}
+		addrs: map[c05TP]int{}, sids: map[reflect.Type]int{}, anc: map[c05TP]int{}, feats: map[string]int{}, dupAt: map[int]bool{}}
 }
 
 func (w *c05Walker) problem(class, detail string) {
@@ -664,15 +676,154 @@ func (w *c05Walker) refOrMarker(v reflect.Value, consume bool) (stop bool) {
 		case !known:
 			w.problem("reference", "reference to unknown marker "+id)
 		case !hit.IsValid():
-			if v.Kind() == reflect.Ptr {
+			if v.Kind() == reflect.Ptr && c05LeadsTo(v, w.marked[id]) {
 				return false // the reference stands for something this pointer leads to
 			}
-			w.problem("reference", "reference "+id+" stands for a different object")
+			w.problem("reference", fmt.Sprintf("reference %s stands for a different object: it is emitted for a %v, the marker is on a %v (same address: %v)",
+				id, v.Type(), w.marked[id].Type(), c05SameAddress(v, w.marked[id])))
 		case v.Kind() == reflect.Slice && hit.Len() != v.Len():
 			w.problem("slice-same-base-different-length", fmt.Sprintf("slice of length %d emitted as a reference to the slice of length %d starting at the same address", v.Len(), hit.Len()))
 		}
 		w.pos++
 		return true
+	}
+	return false
+}
+
+// the objects the iterator asks the reference table about before it emits anything else, starting at v:
+// v itself when it is a non-nil pointer, list slice or map, and what a pointer / interface leads to
+func c05RefChain(v reflect.Value) []reflect.Value {
+	var out []reflect.Value
+	for steps := 0; steps < 16 && v.IsValid(); steps++ {
+		switch v.Kind() {
+		case reflect.Ptr:
+			if v.IsNil() {
+				return out
+			}
+			out = append(out, v)
+			v = v.Elem()
+		case reflect.Interface:
+			if v.IsNil() {
+				return out
+			}
+			v = v.Elem()
+		case reflect.Map, reflect.Slice:
+			if !v.IsNil() {
+				out = append(out, v)
+			}
+			return out
+		default:
+			return out
+		}
+	}
+	return out
+}
+
+// does the pointer v lead (through pointers and interfaces only) to the object a marker seen at m belongs to?
+func c05LeadsTo(v, m reflect.Value) bool {
+	for _, x := range c05RefChain(v.Elem()) {
+		for _, y := range c05RefChain(m) {
+			if x.Type() == y.Type() && x.Pointer() == y.Pointer() {
+				return true
+			}
+		}
+	}
+	return false
+}
+
+func c05SameAddress(a, b reflect.Value) bool {
+	ok := func(v reflect.Value) bool {
+		return v.Kind() == reflect.Ptr || v.Kind() == reflect.Map || v.Kind() == reflect.Slice
+	}
+	return ok(a) && ok(b) && a.Pointer() == b.Pointer()
+}
+
+// ---------------------------------------------------------------------------
+// which typed pointers the model's duplicate finder (Model/Iterate.v, scan) flags for a value: the value read
+// the way the walker presents it to the model, where only pointers, list slices and maps have an identity.
+// go-duplicates also registers the address of every field of an addressable struct; a value in which that
+// changes the answer for a pointer the iterator asks about is outside the model (head of Model/Iterate.v).
+func c05ModelDups(root reflect.Value) map[c05TP]bool {
+	reg := map[c05TP]bool{}
+	register := func(v reflect.Value) (again bool) {
+		tp := c05TP{v.Type(), v.Pointer()}
+		if _, ok := reg[tp]; ok {
+			reg[tp] = true
+			return true
+		}
+		reg[tp] = false
+		return false
+	}
+	var scan func(v reflect.Value)
+	scan = func(v reflect.Value) {
+		t := v.Type()
+		switch t.Kind() {
+		case reflect.Interface:
+			if !v.IsNil() {
+				scan(v.Elem())
+			}
+		case reflect.Ptr:
+			if v.IsNil() {
+				return
+			}
+			switch t.Elem() {
+			case c05TURL, c05TBigInt, c05TBigFlt, c05TBigDec, c05TTime, c05TCTime:
+				return
+			}
+			if !register(v) {
+				scan(v.Elem())
+			}
+		case reflect.Map:
+			if v.IsNil() || v.Len() == 0 {
+				return
+			}
+			if !register(v) {
+				for _, k := range v.MapKeys() {
+					scan(v.MapIndex(k))
+				}
+			}
+		case reflect.Slice, reflect.Array:
+			if t == c05TUID {
+				return
+			}
+			ek := t.Elem().Kind()
+			if name, _, _ := c05AKind(ek); name != "" || ek == reflect.Bool {
+				return
+			}
+			if t.Kind() == reflect.Slice && (v.IsNil() || v.Len() == 0 || register(v)) {
+				return
+			}
+			for i := 0; i < v.Len(); i++ {
+				scan(v.Index(i))
+			}
+		case reflect.Struct:
+			if c05Special(t) && t != c05TNode && t != c05TEdge {
+				return
+			}
+			for i := 0; i < t.NumField(); i++ {
+				scan(v.Field(i))
+			}
+		}
+	}
+	if root.IsValid() {
+		scan(root)
+	}
+	return reg
+}
+
+// true when go-duplicates and the model's duplicate finder disagree about an object the iterator asks about
+func c05DupsDiffer(root interface{}, asked map[c05TP]int) (differ bool) {
+	defer func() {
+		if recover() != nil {
+			differ = false
+		}
+	}()
+	impl := duplicates.FindDuplicatePointers(root)
+	model := c05ModelDups(reflect.ValueOf(root))
+	for tp := range asked {
+		if impl[duplicates.TypedPointer{Type: tp.T, Pointer: tp.P}] != model[tp] {
+			return true
+		}
 	}
 	return false
 }
@@ -821,6 +972,7 @@ type c05Snapshot struct {
 	desync     bool
 	marked     map[string]reflect.Value
 	feats      map[string]int
+	dupAt      map[int]bool
 }
 
 func (w *c05Walker) snapshot() c05Snapshot {
@@ -832,12 +984,52 @@ func (w *c05Walker) snapshot() c05Snapshot {
 	for k, v := range w.feats {
 		f[k] = v
 	}
-	return c05Snapshot{w.pos, len(w.problems), w.desync, m, f}
+	d := map[int]bool{}
+	for k, v := range w.dupAt {
+		d[k] = v
+	}
+	return c05Snapshot{w.pos, len(w.problems), w.desync, m, f, d}
 }
 
 func (w *c05Walker) restore(s c05Snapshot) {
-	w.pos, w.problems, w.desync, w.marked, w.feats = s.pos, w.problems[:s.nprob], s.desync, s.marked, s.feats
+	w.pos, w.problems, w.desync, w.marked, w.feats, w.dupAt = s.pos, w.problems[:s.nprob], s.desync, s.marked, s.feats, s.dupAt
 }
+
+// a field name about to be read at the current position: note it when the same map / record type has it already
+func (w *c05Walker) fieldName(seen map[string]bool, name string, consume bool) {
+	if seen[name] {
+		w.feats["duplicate-flattened-field-name"]++
+		if consume && !w.desync {
+			w.dupAt[w.pos] = true
+		}
+	}
+	seen[name] = true
+}
+
+// the fields Go promotes through embedded structs with a lower-case type name, which the implementation does not see
+func c05Promoted(t reflect.Type) (impl, full, hidden []c05Field) {
+	impl, full = c05Extract(t, nil, false), c05Extract(t, nil, true)
+	have := map[string]bool{}
+	for _, f := range impl {
+		have[c05PathKey(f.Path)] = true
+	}
+	for _, f := range full {
+		if !have[c05PathKey(f.Path)] {
+			hidden = append(hidden, f)
+		}
+	}
+	return
+}
+
+func c05FieldNames(fs []c05Field) string {
+	var n []string
+	for _, f := range fs {
+		n = append(n, f.GoName)
+	}
+	return strings.Join(n, ", ")
+}
+
+const c05ClassPromoted = "promoted-field-of-unexported-embedded-dropped"
 
 func (w *c05Walker) mapVal(v reflect.Value, consume bool) string {
 	if v.IsNil() {
@@ -981,9 +1173,37 @@ func (w *c05Walker) structKind(v reflect.Value, consume bool) string {
 }
 
 func (w *c05Walker) structVal(v reflect.Value, consume bool, recName string, isRecord bool) string {
+	impl, full, hidden := c05Promoted(v.Type())
+	if len(hidden) == 0 {
+		return w.structValWith(v, consume, recName, isRecord, impl)
+	}
+	w.feats["unexported-embedded"]++
+	// the promoted fields this value (as a record: its type) has to show
+	var due []c05Field
+	for _, f := range hidden {
+		if w.kc.keeps(f, c05FieldByPath(v, f.Path)) || (isRecord && w.kc.keeps(f, reflect.ValueOf(1))) {
+			due = append(due, f)
+		}
+	}
+	if len(due) == 0 || !consume || w.desync {
+		return w.structValWith(v, consume, recName, isRecord, impl)
+	}
+	// every field once: first read the events that way; if they do not fit, say so and read them the implementation's way,
+	// so that anything else that is wrong is still found (under its own class)
+	s, np := w.snapshot(), len(w.problems)
+	term := w.structValWith(v, consume, recName, isRecord, full)
+	if !w.desync && len(w.problems) == np {
+		return term
+	}
+	w.restore(s)
+	w.problem(c05ClassPromoted, fmt.Sprintf("at %d: %v does not show %s, exported field(s) of an embedded struct whose type name is lower-case", w.pos, v.Type(), c05FieldNames(due)))
+	return w.structValWith(v, consume, recName, isRecord, impl)
+}
+
+func (w *c05Walker) structValWith(v reflect.Value, consume bool, recName string, isRecord bool, fields []c05Field) string {
 	t := v.Type()
-	fields := c05Extract(t, nil)
 	terms := map[string]string{}
+	names := map[string]bool{}
 	if isRecord {
 		if e, ok := w.peek(consume); ok && e.K == "m" && !w.kc.recordOrderOK() {
 			// the iterator of this occurrence was built before the type was registered (session.go Init): a plain map
@@ -1011,6 +1231,7 @@ func (w *c05Walker) structVal(v reflect.Value, consume bool, recName string, isR
 		kept++
 		if !isRecord {
 			name := w.kc.emittedName(f)
+			w.fieldName(names, name, consume)
 			w.leaf(consume, "sa", func(e Ev) bool { return e.A == events.ArrayTypeString && string(e.Data) == name }, "field-name", "field "+f.GoName+" as "+strconv.Quote(name))
 		}
 		terms[c05PathKey(f.Path)] = w.value(fv, consume)
@@ -1114,6 +1335,11 @@ type c05Gen struct {
 	cycles bool // recursion support is on: sharing may form cycles
 	pool   map[reflect.Type][]reflect.Value
 	defect bool // allow shapes that hit recorded defect classes (edges, long bool slices, omitted record fields)
+	// pointers into the middle of finished objects (address of a struct field, of the first element of an array or
+	// slice): same address as the enclosing object when the field is the first one, another type
+	interiorOn bool
+	interior   []reflect.Value
+	made       []reflect.Value // finished pointers, list slices and maps, to be used again elsewhere
 }
 
 var c05LeafTypes = []reflect.Type{
@@ -1164,15 +1390,65 @@ func (g *c05Gen) typ(depth int) reflect.Type {
 	}
 }
 
+// the name a field is known by in the document, reduced so that names that could collide in either style do
+func c05NameKey(name string) string {
+	return strings.ReplaceAll(c05Snake(strings.TrimSpace(name)), "_", "")
+}
+
 func (g *c05Gen) structType(depth int) reflect.Type {
+	levels := 0 // levels of embedded structs below this one
+	if g.rng.Intn(5) < 2 {
+		levels = 1 + g.rng.Intn(6)
+	}
+	return g.structTree(depth, levels, map[string]bool{})
+}
+
+// used: the names taken in the struct this one is embedded in (embedded fields are flattened into one map)
+func (g *c05Gen) structTree(depth, levels int, used map[string]bool) reflect.Type {
 	n := g.rng.Intn(5)
 	names := g.rng.Perm(len(c05GoNames))
 	tags := g.rng.Perm(len(c05TagNames))
+	fresh := func(i int) string {
+		name := c05GoNames[names[i%len(names)]]
+		for k := 0; used[c05NameKey(name)]; k++ {
+			name = fmt.Sprintf("%sV%d", c05GoNames[names[i%len(names)]], len(used)+k)
+		}
+		used[c05NameKey(name)] = true
+		return name
+	}
+	var embedded []reflect.StructField
+	if levels > 0 {
+		if n == 0 {
+			n = 1 + g.rng.Intn(3)
+		}
+		k := 1
+		if g.rng.Intn(4) == 0 {
+			k = 2
+		}
+		for e := 0; e < k; e++ {
+			f := reflect.StructField{Name: fmt.Sprintf("Emb%d%c", levels, 'A'+e), Anonymous: true}
+			if g.rng.Intn(12) == 0 {
+				f.Tag = `ce:"omit"`
+				f.Type = g.structTree(depth, levels-1, map[string]bool{})
+			} else {
+				if g.rng.Intn(6) == 0 {
+					f.Tag = reflect.StructTag(`ce:"` + []string{"omit_empty", "omit_zero", "omit_never", "order=-7", "name=ignored"}[g.rng.Intn(5)] + `"`)
+				}
+				below := used
+				if g.defect && g.rng.Intn(8) == 0 {
+					below = map[string]bool{} // names are chosen afresh below: some may repeat the ones taken above
+				}
+				f.Type = g.structTree(depth, levels-1, below)
+			}
+			embedded = append(embedded, f)
+		}
+	}
 	fields := make([]reflect.StructField, n)
 	for i := range fields {
 		var parts []string
-		if g.rng.Intn(4) == 0 {
-			parts = append(parts, "name="+c05TagNames[tags[i]])
+		if tag := c05TagNames[tags[i%len(tags)]]; g.rng.Intn(4) == 0 && !used[c05NameKey(tag)] {
+			used[c05NameKey(tag)] = true
+			parts = append(parts, "name="+tag)
 		}
 		switch g.rng.Intn(8) {
 		case 0:
@@ -1188,11 +1464,15 @@ func (g *c05Gen) structType(depth int) reflect.Type {
 			parts = append(parts, fmt.Sprintf("order=%d", []int{-5, 0, 1, 1, 2, 7, 1000}[g.rng.Intn(7)]))
 		}
 		g.rng.Shuffle(len(parts), func(a, b int) { parts[a], parts[b] = parts[b], parts[a] })
-		f := reflect.StructField{Name: c05GoNames[names[i]], Type: g.typ(depth - 1)}
+		f := reflect.StructField{Name: fresh(i), Type: g.typ(depth - 1)}
 		if len(parts) > 0 {
 			f.Tag = reflect.StructTag(`ce:"` + strings.Join(parts, ",") + `"`)
 		}
 		fields[i] = f
+	}
+	for _, e := range embedded {
+		at := g.rng.Intn(len(fields) + 1)
+		fields = append(fields[:at], append([]reflect.StructField{e}, fields[at:]...)...)
 	}
 	return reflect.StructOf(fields)
 }
@@ -1363,6 +1643,7 @@ func (g *c05Gen) fill(v reflect.Value, depth int) {
 			g.fill(n.Elem(), depth-1)
 			g.pool[t] = append(g.pool[t], n)
 		}
+		g.finished(n)
 		v.Set(n)
 	case reflect.Slice:
 		if g.rng.Intn(6) == 0 {
@@ -1398,6 +1679,7 @@ func (g *c05Gen) fill(v reflect.Value, depth int) {
 		}
 		if n > 0 {
 			g.pool[t] = append(g.pool[t], s)
+			g.finished(s)
 		}
 		v.Set(s)
 	case reflect.Array:
@@ -1434,6 +1716,9 @@ func (g *c05Gen) fill(v reflect.Value, depth int) {
 			m.SetMapIndex(k, e)
 		}
 		g.pool[t] = append(g.pool[t], m)
+		if m.Len() > 0 {
+			g.made = append(g.made, m)
+		}
 		v.Set(m)
 	case reflect.Struct:
 		for i := 0; i < t.NumField(); i++ {
@@ -1447,6 +1732,55 @@ func (g *c05Gen) fill(v reflect.Value, depth int) {
 		}
 	default:
 		panic(fmt.Sprintf("c05 gen: kind %v", t))
+	}
+}
+
+// p is a finished non-nil pointer or non-empty list slice: remember it, and the addresses inside what it holds
+func (g *c05Gen) finished(p reflect.Value) {
+	if !g.interiorOn {
+		return
+	}
+	g.made = append(g.made, p)
+	if p.Kind() == reflect.Ptr {
+		g.inside(p.Elem(), 0)
+	} else {
+		g.addInterior(p.Index(0))
+		g.inside(p.Index(0), 0)
+	}
+}
+
+func (g *c05Gen) addInterior(v reflect.Value) {
+	if !v.CanAddr() || !v.CanInterface() || len(g.interior) > 64 {
+		return
+	}
+	switch v.Type() {
+	case c05TURL, c05TBigInt, c05TBigFlt, c05TBigDec, c05TTime, c05TCTime:
+		return // pointers to these are leaves of their own
+	}
+	a := v.Addr()
+	g.interior = append(g.interior, a)
+	g.pool[a.Type()] = append(g.pool[a.Type()], a)
+}
+
+// the fields of an addressable struct and the first element of an addressable array, the first ones first
+func (g *c05Gen) inside(v reflect.Value, level int) {
+	if level > 3 || c05Special(v.Type()) {
+		return
+	}
+	switch v.Kind() {
+	case reflect.Struct:
+		for i := 0; i < v.NumField(); i++ {
+			if v.Type().Field(i).PkgPath != "" || (i > 0 && g.rng.Intn(2) == 0) {
+				continue
+			}
+			g.addInterior(v.Field(i))
+			g.inside(v.Field(i), level+1)
+		}
+	case reflect.Array:
+		if v.Len() > 0 {
+			g.addInterior(v.Index(0))
+			g.inside(v.Index(0), level+1)
+		}
 	}
 }
 
@@ -1489,6 +1823,15 @@ func (g *c05Gen) ifaceValue(depth int) interface{} {
 }
 
 func (g *c05Gen) nonNilIface(depth int) interface{} {
+	if g.interiorOn {
+		// an object that is already part of the value, or a pointer into one
+		if len(g.interior) > 0 && g.rng.Intn(4) == 0 {
+			return g.interior[g.rng.Intn(len(g.interior))].Interface()
+		}
+		if len(g.made) > 0 && g.rng.Intn(5) == 0 {
+			return g.made[g.rng.Intn(len(g.made))].Interface()
+		}
+	}
 	t := g.typ(depth)
 	for t.Kind() == reflect.Interface {
 		t = g.typ(0)
@@ -1503,7 +1846,7 @@ func c05NeedsFill(t reflect.Type, depth int) bool {
 	if t == c05TMedia || t == c05TEdge || t == c05TCTime {
 		return true
 	}
-	if c05Special(t) || depth > 5 {
+	if c05Special(t) || depth > 40 { // embedded structs nest deep
 		return false
 	}
 	switch t.Kind() {
@@ -1606,6 +1949,8 @@ type c05Run struct {
 	CfgTerm  string
 	Decode   map[string]string // format -> "" | error text
 	Docs     map[string][]byte
+	DupAt    map[int]bool // positions of repeated field names
+	DupDiff  bool         // recursion support: go-duplicates flags other objects than the model's finder does (interior pointers)
 }
 
 func c05Iterate(root interface{}, kc *c05Cfg) (evs []Ev, panicked string) {
@@ -1681,16 +2026,7 @@ func c05Exec(root interface{}, kc *c05Cfg) *c05Run {
 		}
 		sort.SliceStable(idx, func(a, b int) bool { return kc.RecNames[idx[a]] < kc.RecNames[idx[b]] })
 		for _, i := range idx {
-			name := kc.RecNames[i]
-			w.leaf(true, "rt", func(e Ev) bool { return string(e.Data) == name }, "record-type", "record type "+name)
-			for _, f := range c05Extract(kc.RecTypes[i], nil) {
-				if !kc.keeps(f, reflect.ValueOf(1)) {
-					continue
-				}
-				fn := kc.emittedName(f)
-				w.leaf(true, "sa", func(e Ev) bool { return e.A == events.ArrayTypeString && string(e.Data) == fn }, "record-type", "record type key "+fn)
-			}
-			w.expectKind(true, "e", "end of record type")
+			w.recordType(kc.RecNames[i], kc.RecTypes[i])
 		}
 		r.Term = cSome(w.value(reflect.ValueOf(root), true))
 		w.expectKind(true, "ed", "end document")
@@ -1698,7 +2034,10 @@ func c05Exec(root interface{}, kc *c05Cfg) *c05Run {
 			w.problem("structure", "events after the end of the document")
 		}
 	}
-	r.Problems, r.Feats = w.problems, w.feats
+	r.Problems, r.Feats, r.DupAt = w.problems, w.feats, w.dupAt
+	if root != nil && kc.Recursion {
+		r.DupDiff = c05DupsDiffer(root, w.addrs)
+	}
 	for _, f := range []string{"cbe", "cte"} {
 		doc, res := c05Marshal(f, root, kc)
 		r.Docs[f] = doc
@@ -1714,6 +2053,10 @@ func c05Exec(root interface{}, kc *c05Cfg) *c05Run {
 // the recorded defect class that explains a rejected stream, by what the value contains
 func (r *c05Run) cause() string {
 	switch {
+	case r.Rej >= 0 && r.DupAt[r.Rej]:
+		// the refused event is a field name that the same map / record type has already: two fields of the flattened
+		// struct go by one name (an embedded struct's field shadowed by, or colliding with, another field)
+		return "duplicate-flattened-field-name"
 	case r.Feats["edge"] > 0 && !c05EdgeEmitsEnd():
 		return "edge-no-end"
 	case r.Feats["record-omitted-field"] > 0:
@@ -1728,6 +2071,40 @@ func (r *c05Run) cause() string {
 		return "map-key-collision"
 	}
 	return "other"
+}
+
+// the declaration of one record type at the head of the document
+func (w *c05Walker) recordType(name string, t reflect.Type) {
+	declared := func(fs []c05Field) (out []c05Field) {
+		for _, f := range fs {
+			if w.kc.keeps(f, reflect.ValueOf(1)) {
+				out = append(out, f)
+			}
+		}
+		return
+	}
+	read := func(fs []c05Field) {
+		w.leaf(true, "rt", func(e Ev) bool { return string(e.Data) == name }, "record-type", "record type "+name)
+		names := map[string]bool{}
+		for _, f := range fs {
+			fn := w.kc.emittedName(f)
+			w.fieldName(names, fn, true)
+			w.leaf(true, "sa", func(e Ev) bool { return e.A == events.ArrayTypeString && string(e.Data) == fn }, "record-type", "record type key "+fn)
+		}
+		w.expectKind(true, "e", "end of record type")
+	}
+	impl, full, hidden := c05Promoted(t)
+	if due := declared(hidden); len(due) > 0 && !w.desync {
+		w.feats["unexported-embedded"]++
+		s, np := w.snapshot(), len(w.problems)
+		read(declared(full))
+		if !w.desync && len(w.problems) == np {
+			return
+		}
+		w.restore(s)
+		w.problem(c05ClassPromoted, fmt.Sprintf("at %d: record type %s (%v) does not declare %s, exported field(s) of an embedded struct whose type name is lower-case", w.pos, name, t, c05FieldNames(due)))
+	}
+	read(declared(impl))
 }
 
 type c05Verdict struct {
@@ -1860,6 +2237,9 @@ type c05ZooEntry struct {
 	Build       func() interface{}
 	Records     map[string]interface{} // record name -> value of the struct type
 	NeedsRec    bool                   // only meaningful (or only finite) with recursion support
+	Few         bool                   // three configurations are enough (large families)
+	Reject      bool                   // an unsupported value whose events the validator has to refuse
+	Interior    bool                   // holds pointers into the middle of other objects
 	Unsupported bool                   // outside the property's quantifier; recorded for the correspondence only
 	Feat        string
 }
@@ -2081,7 +2461,538 @@ func c05Zoo() []c05ZooEntry {
 		return []interface{}{n, n}
 	})
 	e.NeedsRec = true
+	c05ZooEmbedding(add)
+	c05ZooClashes(add)
+	c05ZooAliases(add)
+	// media types: the validator checks the form type/subtype (/repo afaa1e5); a types.Media with a malformed
+	// media type is outside the property, and its events must be refused
+	add("media-valid-charset", func() interface{} {
+		return []interface{}{types.Media{MediaType: "a/b"}, types.Media{MediaType: "A/B", Data: []byte{0}},
+			types.Media{MediaType: "application/vnd.x-y+z", Data: []byte{1, 2, 3}}, &types.Media{MediaType: "a9!#$%&'*+.^_`|~{}-/x.9-Z", Data: []byte{255}}}
+	})
+	for i, mt := range []string{"a", "a/", "/b", "1a/b", "a/b/c", "a b/c", "a/b c", "ä/b", "a/ü", "a\\b", "a/b\x00"} {
+		mt := mt
+		e = add(fmt.Sprintf("media-invalid-type-%d", i), func() interface{} {
+			return []interface{}{1, types.Media{MediaType: mt, Data: []byte{1}}}
+		})
+		e.Unsupported, e.Reject = true, true
+	}
 	return z
+}
+
+// ---------------------------------------------------------------------------
+// zoo family: embedded structs, every depth of embedding (extractFields builds one index path per level)
+
+// the everyday form: each level embeds the previous one by its (exported) type name
+type C05Core struct{ A, B, C int }
+type C05Base struct {
+	C05Core
+	D int
+}
+type C05Middle struct {
+	C05Base
+	E int
+}
+type C05Outer struct {
+	C05Middle
+	F int
+}
+type C05Outer4 struct {
+	G string
+	C05Outer
+}
+type C05Outer5 struct {
+	C05Outer4
+	H []int16 `ce:"order=-1"`
+}
+type C05Outer6 struct {
+	I bool
+	C05Outer5
+	J string `ce:"name=jay"`
+}
+
+// two embedded structs side by side, and an embedded struct tagged `omit`
+type C05Left struct {
+	C05Core
+	L string
+}
+type C05Other struct{ P, Q int }
+type C05Wrap struct {
+	C05Other
+	W string
+}
+type C05Right struct {
+	R1 int
+	C05Wrap
+	R2 int
+}
+type C05Both struct {
+	C05Left
+	M        int
+	C05Right `ce:"omit_never"`
+	C05Gone  `ce:"omit"`
+}
+type C05Gone struct{ Never int }
+
+// every settable scalar below v gets its own non-zero value, so that no two fields look alike
+func c05FillDistinct(v reflect.Value, ctr *int64) {
+	switch v.Kind() {
+	case reflect.Bool:
+		v.SetBool(true)
+	case reflect.Int, reflect.Int8, reflect.Int16, reflect.Int32, reflect.Int64:
+		*ctr++
+		v.SetInt(*ctr%100 + 1)
+		if v.Type().Bits() > 8 {
+			v.SetInt(*ctr)
+		}
+	case reflect.Uint, reflect.Uint8, reflect.Uint16, reflect.Uint32, reflect.Uint64:
+		*ctr++
+		v.SetUint(uint64(*ctr%200 + 1))
+	case reflect.Float32, reflect.Float64:
+		*ctr++
+		v.SetFloat(float64(*ctr) + 0.5)
+	case reflect.String:
+		*ctr++
+		v.SetString(fmt.Sprintf("s%d", *ctr))
+	case reflect.Slice:
+		if c05Special(v.Type()) {
+			return
+		}
+		s := reflect.MakeSlice(v.Type(), 2, 2)
+		c05FillDistinct(s.Index(0), ctr)
+		c05FillDistinct(s.Index(1), ctr)
+		v.Set(s)
+	case reflect.Array:
+		if c05Special(v.Type()) {
+			return
+		}
+		for i := 0; i < v.Len(); i++ {
+			c05FillDistinct(v.Index(i), ctr)
+		}
+	case reflect.Struct:
+		if c05Special(v.Type()) {
+			return
+		}
+		for i := 0; i < v.NumField(); i++ {
+			if v.Field(i).CanSet() {
+				c05FillDistinct(v.Field(i), ctr)
+			}
+		}
+	}
+}
+
+func c05Distinct(t reflect.Type) reflect.Value {
+	v := reflect.New(t).Elem()
+	var ctr int64 = 10
+	c05FillDistinct(v, &ctr)
+	return v
+}
+
+var c05EmbKinds = []reflect.Type{reflect.TypeOf(int(0)), reflect.TypeOf(""), reflect.TypeOf([]int16{}), reflect.TypeOf(uint8(0)), reflect.TypeOf(float64(0)), reflect.TypeOf(false)}
+
+// a chain of depth embeddings: level k is struct{LvlkA; LvlkB; <level k-1, embedded>} with the embedded struct
+// first (pos 0), in the middle (1) or last (2); the innermost struct has inner fields.
+// mixed: the fields have different types and the last innermost field is ordered to the front.
+func c05EmbChain(depth, pos, inner int, mixed bool) reflect.Type {
+	kind := func(i int) reflect.Type {
+		if mixed {
+			return c05EmbKinds[i%len(c05EmbKinds)]
+		}
+		return c05EmbKinds[0]
+	}
+	var fs []reflect.StructField
+	for i := 0; i < inner; i++ {
+		f := reflect.StructField{Name: "Core" + string(rune('A'+i)), Type: kind(i)}
+		if mixed && inner > 1 && i == inner-1 {
+			f.Tag = `ce:"order=-1"`
+		}
+		fs = append(fs, f)
+	}
+	t := reflect.StructOf(fs)
+	for lvl := 1; lvl <= depth; lvl++ {
+		a := reflect.StructField{Name: fmt.Sprintf("Lvl%dA", lvl), Type: kind(lvl)}
+		b := reflect.StructField{Name: fmt.Sprintf("Lvl%dB", lvl), Type: kind(lvl + 1)}
+		e := reflect.StructField{Name: fmt.Sprintf("Emb%d", lvl), Type: t, Anonymous: true}
+		switch pos {
+		case 0:
+			fs = []reflect.StructField{e, a, b}
+		case 1:
+			fs = []reflect.StructField{a, e, b}
+		default:
+			fs = []reflect.StructField{a, b, e}
+		}
+		t = reflect.StructOf(fs)
+	}
+	return t
+}
+
+// a binary tree of embeddings: every struct embeds two structs of the level below
+func c05EmbTree(depth int, prefix string) reflect.Type {
+	fs := []reflect.StructField{{Name: prefix + "X", Type: reflect.TypeOf(int(0))}}
+	if depth > 0 {
+		fs = append(fs,
+			reflect.StructField{Name: "EmbL", Type: c05EmbTree(depth-1, prefix+"L"), Anonymous: true},
+			reflect.StructField{Name: prefix + "Y", Type: reflect.TypeOf("")},
+			reflect.StructField{Name: "EmbR", Type: c05EmbTree(depth-1, prefix+"R"), Anonymous: true})
+	} else {
+		fs = append(fs, reflect.StructField{Name: prefix + "Z", Type: reflect.TypeOf(int(0))})
+	}
+	return reflect.StructOf(fs)
+}
+
+func c05ZooEmbedding(add func(name string, b func() interface{}) *c05ZooEntry) {
+	typed := func(name string, t reflect.Type, few bool) {
+		e := add(name, func() interface{} { return c05Distinct(t).Interface() })
+		e.Records = map[string]interface{}{"o": reflect.Zero(t).Interface()}
+		e.Few = few
+	}
+	for i, v := range []interface{}{C05Core{}, C05Base{}, C05Middle{}, C05Outer{}, C05Outer4{}, C05Outer5{}, C05Outer6{}, C05Both{}} {
+		typed(fmt.Sprintf("embed-named-%d", i), reflect.TypeOf(v), false)
+	}
+	for depth := 0; depth <= 6; depth++ {
+		for pos := 0; pos < 3; pos++ {
+			if depth == 0 && pos > 0 {
+				continue
+			}
+			for _, shape := range []struct {
+				inner int
+				mixed bool
+			}{{1, false}, {2, false}, {3, true}} {
+				if shape.inner == 1 && pos > 0 {
+					continue
+				}
+				name := fmt.Sprintf("embed-chain-d%d-p%d-n%d", depth, pos, shape.inner)
+				if shape.mixed {
+					name += "-mixed"
+				}
+				typed(name, c05EmbChain(depth, pos, shape.inner, shape.mixed), true)
+			}
+		}
+	}
+	for depth := 1; depth <= 4; depth++ {
+		typed(fmt.Sprintf("embed-tree-d%d", depth), c05EmbTree(depth, "T"), true)
+	}
+	// embedded structs inside other containers: the field iterators are built once per type and used for every value
+	for _, depth := range []int{3, 4, 5} {
+		t := c05EmbChain(depth, depth%3, 2, true)
+		e := add(fmt.Sprintf("embed-chain-d%d-in-containers", depth), func() interface{} {
+			a, b := c05Distinct(t), c05Distinct(t)
+			b.Field(0).Set(reflect.Zero(b.Field(0).Type())) // a zero first field: omit rules differ between the two
+			l := reflect.MakeSlice(reflect.SliceOf(t), 0, 2)
+			l = reflect.Append(l, a, b)
+			p := reflect.New(t)
+			p.Elem().Set(a)
+			m := reflect.MakeMap(reflect.MapOf(reflect.TypeOf(""), t))
+			m.SetMapIndex(reflect.ValueOf("k"), b)
+			return []interface{}{l.Interface(), p.Interface(), m.Interface(), a.Interface()}
+		})
+		e.Records = map[string]interface{}{"o": reflect.Zero(t).Interface()}
+		e.Few = true
+	}
+}
+
+// ---------------------------------------------------------------------------
+// zoo family: flattening an embedded struct into the map of the outer one, where it goes wrong today
+// (a) two fields of the flattened struct go by the same name: the map has a key twice, the validator refuses it;
+// (b) the embedded struct's type name is lower-case: its exported fields, which Go promotes, do not appear at all.
+
+type C05ShadowInner struct{ A, B int }
+type C05Shadow struct {
+	A int
+	C05ShadowInner
+}
+type C05ShadowDeep struct {
+	C05Shadow
+	B string
+}
+
+type c05low struct {
+	P int
+	Q string
+}
+type c05lowDeep struct {
+	C05Core
+	R int
+}
+type C05HidesFirst struct {
+	c05low
+	Z int
+}
+type C05HidesMiddle struct {
+	Y int
+	c05low
+	Z int
+}
+type C05HidesLast struct {
+	Y int
+	c05low
+}
+type C05HidesDeep struct { // an exported embedding that embeds a lower-case one
+	C05HidesLast
+	W string
+}
+type C05HidesDeeper struct {
+	V int
+	C05HidesDeep
+}
+type C05HidesTree struct { // below a lower-case embedding everything is lost, exported embedded structs too
+	c05lowDeep
+	U int
+}
+type C05HidesTagged struct {
+	c05low `ce:"omit_never"`
+	T      int
+}
+type C05HidesOmitted struct { // control: left out on purpose, nothing is missing
+	c05low `ce:"omit"`
+	T      int
+}
+
+// a chain of depth embeddings (level k = struct{LvlkA int; <level k-1, embedded>}) in which two fields collide:
+// shadow: the outermost struct has a field with the Go name of an innermost one (legal Go: the outer one shadows);
+// mid: the outermost level and level 1 use the same name; tag: a `name=` tag repeats an innermost field's name;
+// snake: the names differ but their snake-case forms do not (a collision in that style only);
+// siblings: two structs embedded side by side in the innermost struct both have a field X.
+func c05ClashType(depth int, kind string) reflect.Type {
+	intT := reflect.TypeOf(int(0))
+	core := []reflect.StructField{{Name: "CoreA", Type: intT}, {Name: "CoreB", Type: intT}}
+	if kind == "siblings" {
+		l := reflect.StructOf([]reflect.StructField{{Name: "X", Type: intT}, {Name: "L", Type: intT}})
+		r := reflect.StructOf([]reflect.StructField{{Name: "R", Type: intT}, {Name: "X", Type: reflect.TypeOf("")}})
+		core = []reflect.StructField{{Name: "EmbL", Type: l, Anonymous: true}, {Name: "CoreB", Type: intT}, {Name: "EmbR", Type: r, Anonymous: true}}
+	}
+	t := reflect.StructOf(core)
+	for lvl := 1; lvl <= depth; lvl++ {
+		a := reflect.StructField{Name: fmt.Sprintf("Lvl%dA", lvl), Type: intT}
+		if kind == "mid" && lvl == depth && depth >= 2 {
+			a.Name = "Lvl1A"
+		}
+		fs := []reflect.StructField{a, {Name: fmt.Sprintf("Emb%d", lvl), Type: t, Anonymous: true}}
+		if lvl == depth {
+			switch kind {
+			case "shadow":
+				fs = append(fs, reflect.StructField{Name: "CoreA", Type: reflect.TypeOf("")})
+			case "tag":
+				fs = append(fs, reflect.StructField{Name: "Other", Type: intT, Tag: `ce:"name=CoreA"`})
+			case "snake":
+				fs = append(fs, reflect.StructField{Name: "Other", Type: intT, Tag: `ce:"name=core_a"`})
+			}
+		}
+		if lvl%2 == 0 {
+			fs[0], fs[1] = fs[1], fs[0]
+		}
+		t = reflect.StructOf(fs)
+	}
+	return t
+}
+
+func c05ZooClashes(add func(name string, b func() interface{}) *c05ZooEntry) {
+	typed := func(name string, t reflect.Type) {
+		e := add(name, func() interface{} { return c05Distinct(t).Interface() })
+		e.Records = map[string]interface{}{"o": reflect.Zero(t).Interface()}
+	}
+	typed("clash-named-shadow", reflect.TypeOf(C05Shadow{}))
+	typed("clash-named-shadow-deep", reflect.TypeOf(C05ShadowDeep{}))
+	for _, kind := range []string{"shadow", "tag", "snake", "mid", "siblings"} {
+		for depth := 0; depth <= 5; depth++ {
+			if (depth == 0 && kind != "siblings") || (depth == 1 && kind == "mid") || (depth == 5 && kind == "siblings") {
+				continue
+			}
+			typed(fmt.Sprintf("clash-%s-d%d", kind, depth), c05ClashType(depth, kind))
+		}
+	}
+	add("clash-in-containers", func() interface{} {
+		t := c05ClashType(3, "shadow")
+		l := reflect.MakeSlice(reflect.SliceOf(t), 0, 2)
+		l = reflect.Append(l, c05Distinct(t), c05Distinct(t))
+		return []interface{}{1, l.Interface(), C05Shadow{1, C05ShadowInner{2, 3}}}
+	})
+	for i, v := range []interface{}{C05HidesFirst{}, C05HidesMiddle{}, C05HidesLast{}, C05HidesDeep{}, C05HidesDeeper{}, C05HidesTree{}, C05HidesTagged{}, C05HidesOmitted{}} {
+		t := reflect.TypeOf(v)
+		build := func() interface{} {
+			// the fields below a lower-case embedding cannot be set through reflect: fill a copy by hand
+			switch t {
+			case reflect.TypeOf(C05HidesFirst{}):
+				return C05HidesFirst{c05low{1, "q"}, 3}
+			case reflect.TypeOf(C05HidesMiddle{}):
+				return C05HidesMiddle{4, c05low{1, "q"}, 3}
+			case reflect.TypeOf(C05HidesLast{}):
+				return C05HidesLast{4, c05low{1, "q"}}
+			case reflect.TypeOf(C05HidesDeep{}):
+				return C05HidesDeep{C05HidesLast{4, c05low{1, "q"}}, "w"}
+			case reflect.TypeOf(C05HidesDeeper{}):
+				return C05HidesDeeper{5, C05HidesDeep{C05HidesLast{4, c05low{1, "q"}}, "w"}}
+			case reflect.TypeOf(C05HidesTree{}):
+				return C05HidesTree{c05lowDeep{C05Core{1, 2, 3}, 4}, 5}
+			case reflect.TypeOf(C05HidesTagged{}):
+				return C05HidesTagged{c05low{0, ""}, 6}
+			}
+			return C05HidesOmitted{c05low{1, "q"}, 6}
+		}
+		e := add(fmt.Sprintf("hidden-promoted-%d", i), build)
+		e.Records = map[string]interface{}{"o": reflect.Zero(t).Interface()}
+	}
+	add("hidden-promoted-in-containers", func() interface{} {
+		return []interface{}{[]C05HidesLast{{4, c05low{1, "q"}}, {0, c05low{}}}, &C05HidesDeep{C05HidesLast{4, c05low{1, "q"}}, "w"}, map[string]C05HidesFirst{"k": {c05low{7, "r"}, 8}}}
+	})
+}
+
+// ---------------------------------------------------------------------------
+// zoo family: different objects at one address (a struct and its first field, an array and its first element,
+// a slice and its first element, objects of size zero).  The recursion support must keep them apart: a reference
+// table is about (type, address), not about addresses.
+
+type c05Pos struct {
+	X int
+	Y string
+}
+type c05Sprite struct {
+	Pos  c05Pos
+	Name string
+}
+type c05Scene struct {
+	Hero  c05Sprite
+	N     int
+	Other c05Sprite
+}
+type c05Grid struct {
+	Cells [2]c05Pos
+	Tag   string
+}
+type c05Empty struct{}
+type c05Self struct {
+	Pos   c05Pos
+	Me    *c05Pos
+	Again *c05Pos
+	Whole *c05Self
+}
+type c05Holder struct {
+	S  *c05Scene
+	H  *c05Sprite
+	P  *c05Pos
+	X  *int
+	S2 *c05Scene
+	P2 *c05Pos
+	H2 *c05Sprite
+	X2 *int
+}
+
+var c05AliasKinds = []string{"struct", "array", "slice", "zero-size"}
+
+// objects of different types that start at the same address, outermost first
+func c05AliasChain(kind string) []interface{} {
+	switch kind {
+	case "struct":
+		s := &c05Scene{Hero: c05Sprite{c05Pos{5, "p"}, "hero"}, N: 7, Other: c05Sprite{c05Pos{6, "q"}, "other"}}
+		return []interface{}{s, &s.Hero, &s.Hero.Pos, &s.Hero.Pos.X}
+	case "array":
+		g := &c05Grid{Cells: [2]c05Pos{{1, "a"}, {2, "b"}}, Tag: "g"}
+		return []interface{}{g, &g.Cells, g.Cells[:], &g.Cells[0], &g.Cells[0].X}
+	case "slice":
+		l := []c05Sprite{{c05Pos{1, "a"}, "n1"}, {c05Pos{2, "b"}, "n2"}}
+		return []interface{}{l, &l[0], &l[0].Pos, &l[0].Pos.X}
+	}
+	return []interface{}{&c05Empty{}, &struct{}{}, &[0]int{}, &[0]c05Pos{}}
+}
+
+func c05ZooAliases(add func(name string, b func() interface{}) *c05ZooEntry) {
+	recs := map[string]interface{}{"pos": c05Pos{}, "spr": c05Sprite{}}
+	for _, kind := range c05AliasKinds {
+		kind := kind
+		n := len(c05AliasChain(kind))
+		interior := kind != "zero-size"
+		for i := 0; i < n; i++ {
+			for j := i + 1; j < n; j++ {
+				for _, pattern := range []string{"iijj", "jjii", "ijij"} {
+					i, j, pattern := i, j, pattern
+					e := add(fmt.Sprintf("alias-%s-%d-%d-%s", kind, i, j, pattern), func() interface{} {
+						ch := c05AliasChain(kind)
+						var l []interface{}
+						for _, c := range pattern {
+							if c == 'i' {
+								l = append(l, ch[i])
+							} else {
+								l = append(l, ch[j])
+							}
+						}
+						return l
+					})
+					e.NeedsRec, e.Interior = true, interior
+					if (i+j)%2 == 0 {
+						e.Records = recs
+					}
+				}
+			}
+		}
+		for _, form := range []string{"twice", "twice-reversed", "once", "once-reversed", "interleaved"} {
+			form := form
+			e := add(fmt.Sprintf("alias-%s-all-%s", kind, form), func() interface{} {
+				ch := c05AliasChain(kind)
+				var l []interface{}
+				for k := range ch {
+					x := ch[k]
+					if strings.HasSuffix(form, "reversed") {
+						x = ch[len(ch)-1-k]
+					}
+					l = append(l, x)
+					if strings.HasPrefix(form, "twice") {
+						l = append(l, x)
+					}
+				}
+				if form == "interleaved" {
+					l = append(l, ch...)
+				}
+				return l
+			})
+			e.Interior = interior
+			e.NeedsRec = strings.HasPrefix(form, "twice")
+			if form == "interleaved" {
+				e.Records = recs
+			}
+		}
+	}
+	scene := func() *c05Scene {
+		return &c05Scene{Hero: c05Sprite{c05Pos{5, "p"}, "hero"}, N: 7, Other: c05Sprite{c05Pos{6, "q"}, "other"}}
+	}
+	e := add("alias-typed-fields", func() interface{} {
+		s := scene()
+		return c05Holder{S: s, H: &s.Hero, P: &s.Hero.Pos, X: &s.Hero.Pos.X, S2: s, P2: &s.Hero.Pos, H2: &s.Hero, X2: &s.Hero.Pos.X}
+	})
+	e.Interior = true
+	e = add("alias-typed-fields-inner-first", func() interface{} {
+		s := scene()
+		return &c05Holder{X: &s.Hero.Pos.X, P: &s.Hero.Pos, H: &s.Hero, S: s, S2: s, P2: &s.Hero.Pos, H2: &s.Hero, X2: &s.Hero.Pos.X}
+	})
+	e.Interior = true
+	e = add("alias-not-first-field", func() interface{} { // control: same object, other addresses
+		s := scene()
+		return []interface{}{s, s, &s.Other, &s.Other, &s.N, &s.N, &s.Other.Pos, &s.Other.Pos, &s.Hero.Name, &s.Hero.Name}
+	})
+	e.Interior, e.NeedsRec = true, true
+	e = add("alias-in-map", func() interface{} {
+		s := scene()
+		return map[string]interface{}{"a": s, "b": &s.Hero, "c": s, "d": &s.Hero, "e": &s.Hero.Pos, "f": &s.Hero.Pos}
+	})
+	e.Interior, e.NeedsRec = true, true
+	e.Records = recs
+	e = add("alias-self", func() interface{} { // a struct that points at its own first field, and at itself
+		s := &c05Self{Pos: c05Pos{3, "self"}}
+		s.Me, s.Again, s.Whole = &s.Pos, &s.Pos, s
+		return s
+	})
+	e.Interior, e.NeedsRec = true, true
+	e = add("alias-self-in-list", func() interface{} {
+		s := &c05Self{Pos: c05Pos{3, "self"}}
+		s.Me, s.Again = &s.Pos, &s.Pos
+		return []interface{}{s.Me, s, s, s.Again}
+	})
+	e.Interior, e.NeedsRec = true, true
+	e = add("alias-embedded-first", func() interface{} { // the first field is an embedded struct
+		o := &C05Outer{}
+		o.A, o.B, o.C, o.D, o.E, o.F = 1, 2, 3, 4, 5, 6
+		return []interface{}{o, o, &o.C05Middle, &o.C05Middle, &o.C05Base, &o.C05Base, &o.C05Core, &o.C05Core, &o.A, &o.A}
+	})
+	e.Interior, e.NeedsRec = true, true
 }
 
 func (e *c05ZooEntry) cfgs() []*c05Cfg {
@@ -2102,6 +3013,12 @@ func (e *c05ZooEntry) cfgs() []*c05Cfg {
 		out = append(out, k)
 	}
 	hasRec := len(e.Records) > 0
+	if e.Few {
+		mk(true, false, configuration.OmitFieldEmpty, hasRec)
+		mk(false, false, configuration.OmitFieldZero, false)
+		mk(false, true, configuration.OmitFieldChooseDefault, hasRec)
+		return out
+	}
 	if !e.NeedsRec {
 		mk(true, false, configuration.OmitFieldEmpty, hasRec)
 		mk(false, false, configuration.OmitFieldNever, hasRec)
@@ -2115,8 +3032,14 @@ func (e *c05ZooEntry) cfgs() []*c05Cfg {
 // ---------------------------------------------------------------------------
 // the check
 
-func c05Record(c *Ctx, cf *caseFile, label string, root interface{}, kc *c05Cfg, unsupported bool, feat string, input map[string]string) *c05Run {
+// interior: the value was built with pointers into the middle of other objects (address of a struct field, of an
+// array or slice element); only such a value may leave the model's domain through the duplicate finder
+func c05Record(c *Ctx, cf *caseFile, label string, root interface{}, kc *c05Cfg, unsupported bool, feat string, interior bool, input map[string]string) *c05Run {
 	r := c05Exec(root, kc)
+	if input["must_reject"] == "true" && r.Rej < 0 && r.Panic == "" {
+		c.Fail(Replay{Kind: "reject", Key: "C05/rules-accept/malformed-media-type", Input: input, Expect: "the validator refuses the events of a value with a malformed media type",
+			Got: "accepted", Note: fmt.Sprintf("%s :: %T :: events %s", label, root, c05Short(evsString(r.Evs), 400))})
+	}
 	if feat != "" {
 		r.Feats[feat]++
 	}
@@ -2129,7 +3052,12 @@ func c05Record(c *Ctx, cf *caseFile, label string, root interface{}, kc *c05Cfg,
 	if r.Rej >= 0 {
 		rej = cSome(cNi(r.Rej))
 	}
-	if kc.recordOrderOK() {
+	if interior {
+		c.Dist("feature/interior-pointers")
+	}
+	if interior && r.DupDiff {
+		c.Dist("outside-model/interior-pointer-registered-by-the-duplicate-finder")
+	} else if kc.recordOrderOK() {
 		cf.Add(cTuple(r.CfgTerm, r.Term, cEvs(r.Evs), cBool(r.Panic == ""), rej), fmt.Sprintf("%s | %s | %T | rej=%d panic=%q | %s", label, kc.String(), root, r.Rej, r.Panic, c05Short(evsString(r.Evs), 300)))
 	} else {
 		c.Dist("outside-model/record-type-order")
@@ -2213,40 +3141,59 @@ func c05LeafLike(t reflect.Type) bool {
 }
 
 // one random case from a sub-seed (also the replay procedure)
-func c05Random(sub int64, defect bool) (root interface{}, kc *c05Cfg) {
+func c05Random(sub int64, defect bool) (root interface{}, kc *c05Cfg, interior bool) {
 	rng := rand.New(rand.NewSource(sub))
 	recursion := rng.Intn(3) == 0
 	g := &c05Gen{rng: rng, cycles: recursion, pool: map[reflect.Type][]reflect.Value{}, defect: defect}
+	// one case in four (two in three with recursion support) may point into the middle of its own objects
+	g.interiorOn = rng.Intn(12) < map[bool]int{false: 3, true: 8}[recursion]
 	if rng.Intn(40) == 0 {
-		return nil, g.cfg(nil, recursion)
+		return nil, g.cfg(nil, recursion), false
 	}
 	t := g.typ(3)
 	for tries := 0; tries < 4 && c05LeafLike(t) && rng.Intn(8) != 0; tries++ {
 		t = g.typ(3)
 	}
+	if g.interiorOn && rng.Intn(2) == 0 {
+		t = c05TIfaceSl // a list of anything: room for the same objects to come back
+	}
 	v := reflect.New(t).Elem()
 	g.fill(v, 3)
+	if g.interiorOn && t == c05TIfaceSl {
+		l := v
+		if l.IsNil() {
+			l = reflect.MakeSlice(t, 0, 4)
+		}
+		for k := 2 + rng.Intn(4); k > 0; k-- {
+			l = reflect.Append(l, reflect.ValueOf(g.nonNilIface(2)))
+		}
+		v.Set(l)
+	}
 	root = v.Interface()
-	return root, g.cfg(root, recursion)
+	return root, g.cfg(root, recursion), g.interiorOn
 }
 
 func runC05(c *Ctx) {
-	c.Rep.Rule = "random values of random types (reflect.StructOf structs with ce tags, slices, arrays, maps, pointers with sharing, interfaces, typed arrays, bool slices, library types, Node, Edge), depth <= 3, each with a random iterator configuration (field-name style, default omit behaviour, record types chosen among the struct types of the value, recursion support 1/3 with cycles); one third of the random cases may contain shapes of the open defect classes (edges, signalling float32 NaNs); plus a zoo of hand-written values (bool slices of every length around byte boundaries, edges, records, embedded structs, omit tags on every kind, shared pointers, cycles, slices sharing a base) under 2-5 configurations each; a case is trivial when the document is only nil, a bool or an integer; distinct = distinct (label, configuration, event stream)"
+	c.Rep.Rule = "random values of random types (reflect.StructOf structs with ce tags, slices, arrays, maps, pointers with sharing, interfaces, typed arrays, bool slices, library types, Node, Edge), depth <= 3, each with a random iterator configuration (field-name style, default omit behaviour, record types chosen among the struct types of the value, recursion support 1/3 with cycles); one third of the random cases may contain shapes of the open defect classes (edges, signalling float32 NaNs, embedded structs whose field names are chosen without regard to the names above them); two random struct types in five embed structs 1-6 levels deep (one or two embedded structs per level, at any position, flattened field names kept distinct); with recursion support two cases in three (one in four without) reuse finished pointers / slices / maps and point into the middle of finished objects (address of a struct field, of the first element of an array or slice: same address as the enclosing object, another type); plus a zoo of hand-written values (bool slices of every length around byte boundaries, edges, records, omit tags on every kind, shared pointers, cycles, slices sharing a base; embedded structs: chains of every depth 0-6 with the embedded struct first / in the middle / last and 1-3 innermost fields of equal or mixed types, binary trees of embeddings of depth 1-4, named chains, all as maps and as records; flattened fields that go by one name (an outer field shadowing an embedded struct's field at embedding depth 1-5, a `name=` tag repeating one, names that fall together in snake case only, two levels using one name, two embedded siblings with a field X) and exported fields promoted through an embedded struct whose type name is lower-case (first / middle / last, below an exported embedding, with an exported embedding below it, tagged, omitted as a control) - both open findings; objects of different types at one address under recursion support: every pair out of struct / first field / first field of that / its first int, pointer to array / slice of it / first element, slice / first element, zero-size objects, in three orders of occurrence, in lists, typed fields and maps; media types of every allowed character class, and malformed ones whose events the validator has to refuse) under 2-5 configurations each; a case is trivial when the document is only nil, a bool or an integer; distinct = distinct (label, configuration, event stream)"
 	cf := c.Cases("iterate", "CE.Model.Iterate", "iterate_case", "iterate_case_ok")
 	cf.perFile = 100
 
 	for _, e := range c05Zoo() {
 		for i, kc := range e.cfgs() {
 			root := e.Build()
-			c05Record(c, cf, "zoo/"+e.Name, root, kc, e.Unsupported, e.Feat, map[string]string{"zoo": e.Name, "cfg_index": strconv.Itoa(i)})
+			input := map[string]string{"zoo": e.Name, "cfg_index": strconv.Itoa(i)}
+			if e.Reject {
+				input["must_reject"] = "true"
+			}
+			c05Record(c, cf, "zoo/"+e.Name, root, kc, e.Unsupported, e.Feat, e.Interior, input)
 		}
 	}
 	n := c.Pick(900, 20000)
 	for i := 0; i < n; i++ {
 		sub := c.Rng.Int63()
 		defect := i%3 == 0
-		root, kc := c05Random(sub, defect)
-		c05Record(c, cf, fmt.Sprintf("random/%d", i), root, kc, false, "", map[string]string{"subseed": strconv.FormatInt(sub, 10), "defect": strconv.FormatBool(defect)})
+		root, kc, interior := c05Random(sub, defect)
+		c05Record(c, cf, fmt.Sprintf("random/%d", i), root, kc, false, "", interior, map[string]string{"subseed": strconv.FormatInt(sub, 10), "defect": strconv.FormatBool(defect)})
 	}
 }
 
@@ -2275,7 +3222,7 @@ func replayC05(r *Replay) (bool, string) {
 		if err != nil {
 			return false, "bad replay input"
 		}
-		root, kc = c05Random(sub, r.Input["defect"] == "true")
+		root, kc, _ = c05Random(sub, r.Input["defect"] == "true")
 	}
 	run := c05Exec(root, kc)
 	if feat != "" {
@@ -2283,6 +3230,12 @@ func replayC05(r *Replay) (bool, string) {
 	}
 	vs := run.verdicts(unsupported)
 	detail := fmt.Sprintf("%T under %s: events %s", root, kc.String(), c05Short(evsString(run.Evs), 500))
+	if r.Input["must_reject"] == "true" {
+		if run.Rej < 0 && run.Panic == "" {
+			return false, "C05/rules-accept/malformed-media-type: accepted; " + detail
+		}
+		return true, detail
+	}
 	for _, v := range vs {
 		if v.Key == r.Key || r.Key == "" {
 			return false, fmt.Sprintf("%s: %s; %s [cbe %s]", v.Key, v.Got, detail, hex.EncodeToString(run.Docs["cbe"]))
